@@ -550,6 +550,18 @@ class Repo:
                 if isinstance(v, dict):
                     return list(getattr(v, fn.attr)())
                 return UNKNOWN
+            if isinstance(fn, ast.Attribute) and fn.attr == "get" and 1 <= len(e.args) <= 2 and not e.keywords:
+                d = F(fn.value)
+                if isinstance(d, dict):
+                    k = F(e.args[0])
+                    if k is UNKNOWN:
+                        return UNKNOWN
+                    dflt = F(e.args[1]) if len(e.args) == 2 else None
+                    try:
+                        return d.get(k, dflt)
+                    except TypeError:
+                        return UNKNOWN
+                return UNKNOWN
             if isinstance(fn, ast.Attribute) and fn.attr == "join" and len(e.args) == 1:
                 s, v = F(fn.value), F(e.args[0])
                 if isinstance(s, str) and isinstance(v, (list, tuple)) and all(isinstance(x, str) for x in v):
@@ -589,26 +601,35 @@ class Repo:
                     return a in b
                 if isinstance(op, ast.NotIn):
                     return a not in b
+                if isinstance(op, ast.Is) and (b is None or isinstance(b, bool)):
+                    return a is b
+                if isinstance(op, ast.IsNot) and (b is None or isinstance(b, bool)):
+                    return a is not b
             except Exception:
                 return UNKNOWN
             return UNKNOWN
         if isinstance(e, ast.BoolOp):
-            vals = [F(v) for v in e.values]
-            if any(v is UNKNOWN for v in vals):
-                return UNKNOWN
-            if isinstance(e.op, ast.And):
-                r = True
-                for v in vals:
-                    r = v
-                    if not v:
-                        break
-                return r
-            r = False
-            for v in vals:
-                r = v
-                if v:
-                    break
-            return r
+            is_and = isinstance(e.op, ast.And)
+            unknown = False
+            last: Any = True if is_and else False
+            for sub in e.values:
+                v = F(sub)
+                if v is UNKNOWN:
+                    unknown = True
+                    continue
+                if unknown:
+                    # an earlier operand is unknown: only a deciding constant settles the result
+                    if is_and and not v:
+                        return False if isinstance(v, bool) else UNKNOWN
+                    if (not is_and) and v:
+                        return UNKNOWN
+                    continue
+                last = v
+                if is_and and not v:
+                    return v
+                if (not is_and) and v:
+                    return v
+            return UNKNOWN if unknown else last
         if isinstance(e, ast.UnaryOp) and isinstance(e.op, ast.Not):
             v = F(e.operand)
             return UNKNOWN if v is UNKNOWN else (not v)
